@@ -29,16 +29,23 @@ def from_dsl(grammar, lark_instance, gflags=0, as_bytes=False):
     patterns and anonymous literals get default priority. The built parser is consulted only for the *names* it gave to anonymous
     terminals (matched by pattern), because token types are compared by name."""
     from .. import alpha
+    from . import cfg
     out = []
     named = {}
+    # terminals that no rule reachable from the start symbol uses (and that are not ignored) do not take part in lexing
+    used = cfg.BNF(grammar).used_terminals() | {n for n in grammar.ignore if not (n.startswith('/') or n.startswith('"'))}
+    unused = set()
     for t in grammar.terms:
+        if t.name not in used:
+            unused.add(t.name)
+            continue
         kind, val = t.pattern
         rx = t.regexp()
         named[t.name] = RefTerm(t.name, rx, t.priority if t.priority is not None else 0, _max_width(rx, gflags), len(val), kind == 'str' , gflags, as_bytes)
         out.append(named[t.name])
     # anonymous terminals (inline ignores, literals in rules): find lark's name by pattern
     for lt in lark_instance.terminals:
-        if str(lt.name) in named:
+        if str(lt.name) in named or str(lt.name) in unused:
             continue
         rx = lt.pattern.to_regexp()
         out.append(RefTerm(str(lt.name), rx, 0, _max_width(rx, gflags), len(lt.pattern.value), lt.pattern.type == 'str', gflags, as_bytes))
